@@ -93,6 +93,7 @@ static void run_ct(void)
 	    }
 	} else if (strcmp(fn, "new_alloc") && strcmp(fn, "precision")) {
 	    /* state of the vnacal_new_t: 0 allocated only (no frequency vector), 1 T8 2x2 with frequency vector and two standards,
+	     * 3 (set_fv) as 1 and a measurement error model set
 	     * 2 (set_fv) allocated, a double reflect of the VECTOR parameter (1..3 GHz) added, no frequency vector yet
 	     *   (set_m_error) T16 2x2 with frequency vector and a single reflect standard: S matrix incomplete
 	     * 3 (set_m_error) T16 2x2 with frequency vector and a double reflect standard: S matrix complete */
@@ -100,7 +101,14 @@ static void run_ct(void)
 	    cx sv[4] = { 0.2, 0, 0, 0.2 };
 	    if (st == 1) vnp = new_build(vcp, VNACAL_T8, 2, 2, 2, h_scalar);
 	    else if (st == 0) vnp = vnacal_new_alloc(vcp, VNACAL_T8, 2, 2, NF);
-	    else if (!strcmp(fn, "set_fv")) {
+	    else if (!strcmp(fn, "set_fv") && st == 3) {
+		/* frequency vector 1, 2, 3 GHz in force and a measurement error model set */
+		double nf1[1] = { 1.0e-3 };
+		vnp = new_build(vcp, VNACAL_T8, 2, 2, 2, h_scalar);
+		if (vnp == NULL || vnacal_new_set_m_error(vnp, NULL, 1, nf1, NULL) != 0) {
+		    printf("STATE-ERROR error model %s\n", R.msg); exit(3);
+		}
+	    } else if (!strcmp(fn, "set_fv")) {
 		vnp = vnacal_new_alloc(vcp, VNACAL_T8, 2, 2, NF);
 		fill_m(sv, 2, 2);
 		if (vnp == NULL || vnacal_new_add_double_reflect_m(vnp, mrow, 2, 2, h_vector, h_vector, 1, 2) != 0) {
